@@ -122,6 +122,10 @@ class C05(Prop):
                    'template_rejects_wrong_key_*: the hypothesis is that the oracle rejects (conclusion restated through '
                    'the interpreter); that signatures of another key are rejected is established only by the '
                    'end-to-end run, except template_rejects_other_key_p2pkh (different HASH160 => EvalScriptError)',
+                   'every template verdict theorem (Parts 2-4) assumes c.SigTotal: the RawSignatureHash of the context returns '
+                   'a digest (raises nothing) for every script code <= 10000 bytes that tokenises and every hash-type byte; '
+                   'proved for the reference context txCtx unconditionally and for Real.realCtx tx i when tx is in wire '
+                   'range and i >= 0 (outside: IndexError / struct.error of _CheckSig, known findings D7)',
                    'fields in wire range (Spec.Commit.WFc / Spec.Sighash.FieldsWF), script code <= MAX_SIZE, regular case '
                    '(input idx exists; under SINGLE output idx exists) for committed_edit_changes; '
                    'uncommitted_edit_preserves has no hypothesis. For SINGLE with idx >= |vout| the wallet form '
@@ -306,6 +310,9 @@ class C05(Prop):
         return rng.choice([0, 0, 1, 2, 3, 5, 7, 8, 11])
 
     def generate(self, rng, tier, shard, nshards):
+        # partition: `combos` is a pure function of the tier (no rng), so every shard enumerates the same list and
+        # combo j is run by exactly shard j % nshards; the per-shard rng is used only INSIDE a combo (keys, field
+        # values, edit payloads), where no index partition is applied  (harness/tools/c05_partition_selftest.py)
         for j, (tpl, ht, (nin, nout, idx), rep) in enumerate(self.combos(tier)):
             if j % nshards != shard:
                 continue
